@@ -91,7 +91,7 @@ func firstDiff(a, b []triple) string {
 					return fmt.Sprintf("%s: IR line %d: %q vs %q", a[i].Name, k, strings.TrimSpace(al[k]), strings.TrimSpace(bl[k]))
 				}
 			}
-			return fmt.Sprintf("%s: fingerprint/IR hash differ (%s/%s vs %s/%s)", a[i].Name, a[i].FP[:10], a[i].IRH, b[i].FP[:10], b[i].IRH)
+			return fmt.Sprintf("%s: fingerprint/IR hash differ (%s/%s vs %s/%s)", a[i].Name, a[i].FP[:min(10, len(a[i].FP))], a[i].IRH, b[i].FP[:min(10, len(b[i].FP))], b[i].IRH)
 		}
 	}
 	if len(a) != len(b) {
@@ -279,6 +279,50 @@ func main() {
 		}
 	}
 	wg.Wait()
+
+	// (e) one package far larger than anything else here: 50 functions of 1100 `if`s each
+	// (about 110 000 basic blocks, every function well below the per-function size guard).
+	// Whatever the analysis does about such a package, it does the same in every process.
+	{
+		var b strings.Builder
+		b.WriteString("package hugepkg\n")
+		for f := 0; f < 50; f++ {
+			fmt.Fprintf(&b, "\nfunc H%02d(n int) int {\n", f)
+			for i := 0; i < 1100; i++ {
+				fmt.Fprintf(&b, "\tif n == %d {\n\t\tn += %d\n\t}\n", i+f, 1+(i+f)%7)
+			}
+			b.WriteString("\treturn n\n}\n")
+		}
+		hf := filepath.Join(dirs["plain"], "hugepkg", "hugepkg.go")
+		os.MkdirAll(filepath.Dir(hf), 0o755)
+		os.WriteFile(hf, []byte(b.String()), 0o644)
+		gmps := []int{1, 2, 16}
+		obs := make([]map[string][]triple, len(gmps))
+		errs := make([]error, len(gmps))
+		var hw sync.WaitGroup
+		for i, g := range gmps {
+			hw.Add(1)
+			go func(i, g int) {
+				defer hw.Done()
+				obs[i], errs[i] = child(hf, g)
+			}(i, g)
+		}
+		hw.Wait()
+		for i := 1; i < len(gmps); i++ {
+			if errs[0] != nil || errs[i] != nil {
+				res.Inconcl(1)
+				res.Logf("C01: large-package observation failed: %v %v\n", errs[0], errs[i])
+				continue
+			}
+			for pol, ts := range obs[i] {
+				res.Eval(1)
+				res.Count("large_package_function_observations", len(ts))
+				if !sameTriples(obs[0][pol], ts) {
+					res.Violate("nondeterministic/large-package", fmt.Sprintf("a package of 50 functions x 1100 ifs (%s policy): the process with GOMAXPROCS=%d and the one with GOMAXPROCS=%d report different results: %s", pol, gmps[0], gmps[i], firstDiff(obs[0][pol], ts)), map[string]any{"file": hf, "policy": pol})
+				}
+			}
+		}
+	}
 
 	// (c') cold concurrent start: fresh processes whose very first fingerprint calls are made
 	// by many goroutines at once (prior history: none), each on its own file
